@@ -72,6 +72,23 @@ def gen_case(rng, thorough):
             ops.append({"op": "search", "pattern": p, "inherited": False})
         else:
             ops.append({"op": "size"})
+    if rng.random() < 0.15:
+        # directed: a value overwritten by one that drops some of its terms, then removed (or replaced again), then searched for by the
+        # dropped terms alone: whatever the term index still holds for that id, the answer is the matching STORED facts
+        a = dict(rng.choice(base))
+        keys = [k for k in a if not k.startswith("!") and k not in ("id", "ttl", "expires")]
+        if len(keys) >= 1:
+            gone = rng.choice(keys)
+            b = {k: v for k, v in a.items() if k != gone}
+            if not b or rng.random() < 0.4: b = {"shape": "round"}
+            fid = rng.choice(FIDS)
+            ops += [{"op": "addFact", "id": fid, "fact": a}, {"op": "addFact", "id": fid, "fact": b}]
+            if rng.random() < 0.3: ops.append({"op": "addFact", "id": rng.choice(FIDS), "fact": dict(a)})
+            ops.append({"op": "remFact", "id": fid})
+            ops.append({"op": "search", "pattern": {gone: "?v"}, "inherited": False})
+            ops.append({"op": "search", "pattern": gen.pattern_from(rng, {gone: a[gone]}, repeat_prob=0.0, drop_prob=0.0), "inherited": False})
+            ops.append({"op": "remFact", "id": rng.choice(FIDS + [gone])})
+            ops.append({"op": "search", "pattern": {gone: "?v"}, "inherited": False})
     ops.append({"op": "snapshot"})
     for o in ops: o["loc"] = "a"
     return ops
